@@ -2,7 +2,7 @@
 From Coq Require Import List NArith ZArith Bool.
 Import ListNotations.
 From Verif Require Import Base.Val C01.Model_C01 C01.Spec_C01 C04.Model_C04 C04.Spec_C04
-  C05.Model_C05 C05.Spec_C05 C05.Proofs_C05.
+  C05.Model_C05 C05.Spec_C05 C05.Proofs_C05 C05.Cells_C05 C05.Witness_C05.
 
 (* 1. whether two atoms intersect does not depend on argument order: for EVERY version comparison
    (the only thing used: "compares equal" is symmetric on the two versions when both atoms are `=`)
@@ -34,6 +34,22 @@ Theorem intersects_complete_partial : forall a b p,
 Proof. exact intersects_complete_partial_ver_cmp_proof. Qed.
 Print Assumptions intersects_complete_partial.
 
+(* 2b. completeness for the remaining cells outside the recorded classes, USE deps on BOTH sides:
+   cells {unversioned,<,<=,=,>=,>,~}^2 (two `~` atoms: same version text), glob/glob, `=`/glob and `~`/glob
+   with the package spelt like the `=` / `~` atom ([cell_premise]); USE tokens of the parser's
+   shape and the package outside C04's class use-negative-group-nand for both atoms.
+   Not covered: a ranged operator against a glob. *)
+Theorem intersects_complete_cells : forall a b p,
+  wf5 a = true -> wf5 b = true -> a_negate_vers a = false -> a_negate_vers b = false ->
+  (forall t toks, a_use a = Some toks -> In t toks -> valid_tok t) ->
+  (forall t toks, a_use b = Some toks -> In t toks -> valid_tok t) ->
+  known_use_nand a p = false -> known_use_nand b p = false ->
+  cell_premise is_version a b p ->
+  atom_match ver_cmp a p = true -> atom_match ver_cmp b p = true ->
+  intersects ver_cmp a b = true.
+Proof. exact intersects_complete_cells_ver_cmp_proof. Qed.
+Print Assumptions intersects_complete_cells.
+
 (* ... and the full completeness statement is false of the faithful model:
    ~a/b-1.0 and ~a/b-1.00 both match a/b-1.0 and are reported as disjoint *)
 Theorem complete_refuted :
@@ -51,6 +67,29 @@ Theorem witnessed_refuted :
   /\ ~ witnessed_stmt ver_cmp.
 Proof. exact witnessed_refuted_proof. Qed.
 Print Assumptions witnessed_refuted.
+
+(* 3b. witnessed-ness, constructively, outside the recorded unwitnessed classes: [witness a b] is
+   built from the two atoms (one of: an atom's own version, its next revision, its version with
+   _alpha appended; the slot/sub-slot/repository either atom asks for; every mentioned flag in
+   IUSE, the positively required ones enabled) and both atoms match it.  [wit_premise] excludes
+   adjacent revisions (>V-rN against <V-r(N+1)) and a glob with a revision against `~`, and asks,
+   for a ranged operator against a glob, that the glob's own version lies in the range (the two
+   heuristic branches of the code are not proved); [use_consistent]: no flag required on and off. *)
+Theorem intersects_witnessed_partial : forall a b,
+  wf_atom a = true -> wf_atom b = true -> a_negate_vers a = false -> a_negate_vers b = false ->
+  (a_op a <> 7%N -> is_version (a_ver a)) -> (a_op b <> 7%N -> is_version (a_ver b)) ->
+  wit_premise a b -> use_consistent a b = true ->
+  intersects ver_cmp a b = true ->
+  atom_match ver_cmp a (witness a b) = true /\ atom_match ver_cmp b (witness a b) = true.
+Proof. exact intersects_witnessed_partial_proof. Qed.
+Print Assumptions intersects_witnessed_partial.
+
+(* the perturbations behind the witness: v_alpha is below v; the next revision is above *)
+Theorem version_perturbations : forall v r s,
+  ver_cmp (v ++ s_alpha) r v s = (-1)%Z /\ ver_cmp v (Some (rev_val s + 1)%N) v s = 1%Z
+  /\ (is_version v -> is_version (v ++ s_alpha)).
+Proof. exact version_perturbations_proof. Qed.
+Print Assumptions version_perturbations.
 
 Theorem no_version_between_revisions : forall v ra rb pv pr,
   rev_val rb = (rev_val ra + 1)%N ->
